@@ -3,6 +3,22 @@
   `<component> <op> <args…>`; unknown or unparsable input answers `bad-op` (never a default).
 -/
 import TakVerif.Driver.Move
+import TakVerif.Driver.Winner
+import TakVerif.Driver.Gen
+import TakVerif.Driver.Tokens
+import TakVerif.Driver.TPS
+import TakVerif.Driver.PTN
+import TakVerif.Driver.Symmetry
+import TakVerif.Driver.Heap
+import TakVerif.Driver.Tree
+import TakVerif.Driver.Solver
+import TakVerif.Driver.SelfPlay
+import TakVerif.Driver.Batch
+import TakVerif.Driver.Xformer
+import TakVerif.Driver.Server
+import TakVerif.Driver.Pool
+import TakVerif.Driver.Snapshot
+import TakVerif.Driver.Dataset
 
 open Tak
 
@@ -11,6 +27,22 @@ def dispatch (line : String) : String :=
   let r : Option String :=
     match toks with
     | "move" :: rest => Driver.Move.handle rest
+    | "winner" :: rest => Driver.Winner.handle rest
+    | "gen" :: rest => Driver.Gen.handle rest
+    | "tokens" :: rest => Driver.Tokens.handle rest
+    | "tps" :: rest => Driver.TPS.handle rest
+    | "ptn" :: rest => Driver.PTN.handle rest
+    | "symmetry" :: rest => Driver.Symmetry.handle rest
+    | "heap" :: rest => Driver.Heap.handle rest
+    | "tree" :: rest => Driver.Tree.handle rest
+    | "solver" :: rest => Driver.Solver.handle rest
+    | "selfplay" :: rest => Driver.SelfPlay.handle rest
+    | "batch" :: rest => Driver.Batch.handle rest
+    | "xformer" :: rest => Driver.Xformer.handle rest
+    | "server" :: rest => Driver.Server.handle rest
+    | "pool" :: rest => Driver.Pool.handle rest
+    | "snapshot" :: rest => Driver.Snapshot.handle rest
+    | "dataset" :: rest => Driver.Dataset.handle rest
     | _ => none
   r.getD "bad-op"
 
